@@ -60,3 +60,22 @@ fn c12_parse_offset_non_ascii() {
     let got = parse_offset(&mut s.chars().peekable());
     assert!(got.is_err());
 }
+
+/// the characters of an IANA time-zone name component (C11 / C12): TZLeadingChar = ASCII letter . _ ; TZChar adds the
+/// digits, + and - (so the Etc/GMT+N and Etc/GMT-N names, which the library prints, are accepted back)
+// bounded: the 128 ASCII characters (non-ASCII letters are accepted by is_alphabetic and then fail the identifier lookup)
+// the Unicode table behind char::is_alphabetic is guarded by `c > '\x7f'`, unreachable here: unwind 2 with unwinding assertions on
+#[kani::proof]
+#[kani::unwind(2)]
+fn c12_tz_name_characters() {
+    let b: u8 = kani::any();
+    kani::assume(b < 128);
+    let c = b as char;
+    let letter = (b >= b'a' && b <= b'z') || (b >= b'A' && b <= b'Z');
+    let lead = letter || b == b'.' || b == b'_';
+    let digit = b >= b'0' && b <= b'9';
+    assert!(is_tz_leading_char(&c) == lead);
+    assert!(is_tz_char(&c) == (lead || digit || b == b'+' || b == b'-'));
+    assert!(is_ascii_sign(&c) == (b == b'+' || b == b'-'));
+    assert!(is_slash(&c) == (b == b'/'));
+}
